@@ -112,6 +112,10 @@ def install(I, repo, concrete=False):
             if isinstance(st, (ast.For, ast.While)):
                 break
             prefix.append(st)
+        if len(prefix) == len(fi.node.body) or any(isinstance(x, ast.Return) for s_ in prefix for x in ast.walk(s_)):
+            # no summation loop to stop in front of (the sum is an expression): the body is not of the form this summary cuts —
+            # the real method is interpreted instead (a `return` executed here would leave the CALLER's frame)
+            return NotImplemented
         fr.exec_block([s for s in prefix if not (isinstance(s, (ast.Assign, ast.AnnAssign)) and ast.unparse(s.targets[0] if isinstance(s, ast.Assign) else s.target) == "check")])
         cd = fr.env.get("checked_data")
         if not isinstance(cd, (ABits, bytes)):
@@ -576,6 +580,8 @@ def analyse_shape(ctx, repo, raw, dname, fb, fam_count, variant, concrete=()):
         wire = I.call(w, [o], {})
         if isinstance(wire, (bytes, bytearray)):
             wire = ABits([F(0, (x >> (7 - k)) & 1) for x in wire for k in range(8)], "bytes")
+        if not isinstance(wire, ABits):
+            raise AnalysisError(f"shape {dname} {raw[:12].hex()}: the writer's output is not an octet string the analysis can read ({wire!r})")
         ln = I.call(repo.find_method(o.cls, "__len__"), [o], {}) if repo.find_method(o.cls, "__len__") is not None else None
         st.__dict__["hrnp_checked_w"] = list(st.__dict__.get("hrnp_checked", []))
         st.__dict__["hrnp_calc_w"] = list(st.__dict__.get("hrnp_calc", []))
